@@ -132,7 +132,7 @@ func (n *Net) RoundTrip(req *http.Request) (*http.Response, error) {
 		n.Fault(hit, &d)
 	}
 	hit.D = d
-	n.sim.stats["net."+[]string{"refuse", "reply", "stall"}[d.Kind]]++
+	n.sim.stat("net." + []string{"refuse", "reply", "stall"}[d.Kind])
 	n.sim.tracef("net %s %s -> kind=%d status=%d doc=%s intact=%v cut=%d note=%s", req.Method, url, d.Kind, d.Status, d.Doc, d.Intact, d.CutAt, d.Note)
 	if d.Delay > 0 {
 		time.Sleep(d.Delay)
